@@ -15,7 +15,7 @@ GUARD = 'PYSYNCOBJ_VERIF'
 
 # theorem files shared by several properties: the refinement of the L1 model to abstract Raft (log matching, leader
 # completeness, state-machine safety, committed entries never change) is an obligation of each of these
-SHARED_PROPS = {'C01': ['TierC'], 'C03': ['TierC'], 'C04': ['TierC']}
+SHARED_PROPS = {'C01': ['TierC', 'TierC2'], 'C03': ['TierC', 'TierC2'], 'C04': ['TierC', 'TierC2'], 'C09': ['TierC2']}
 
 BASE_TRUSTED = [
     'Coq 8.16.1 kernel (coqc); vm_compute conversion is used to evaluate the model in the correspondence check, '
